@@ -1,7 +1,7 @@
 SPECIFICATION Spec
 CONSTANTS
   N = 4
-  CFGS <- CfgA
+  CFGS <- CfgB
   MAXT = 3
   DEPTH = 0
   MAXNEWS = 1
